@@ -1,5 +1,702 @@
-/- Helper lemmas for C09 (numerics). May import single Mathlib modules. -/
+/- Helper lemmas for C09 (numerics). May import single Mathlib modules.
+
+   Contents: dyadic arithmetic (`twoAdic`, `bitlen`), `exactDouble?` is sound and complete for
+   `Spec.isDouble`, `roundInexact`/`roundToDouble` overflow, `Spec.val` against `Num.scaled`
+   (comparisons, `exactMultiple`, `isIntegral`, `isZero`), `toDouble`/`fdiv` on the exact
+   sub-domain, the number gate of the bound keywords and `multipleOfFailed`. -/
 import JS.Keywords
 import JS.Spec.Numeric
+import Mathlib.Algebra.Order.Field.Rat
+import Mathlib.Algebra.Order.Field.Power
+import Mathlib.Tactic.Ring
+import Mathlib.Tactic.Linarith
+import Mathlib.Tactic.Positivity
+import Mathlib.Tactic.FieldSimp
+import Mathlib.Data.Nat.Prime.Basic
 namespace JS
+
+/-! ### powers of two, `twoAdic`, `bitlen` -/
+
+theorem exists_odd_mul_two_pow (n : Nat) (hn : n ≠ 0) : ∃ m t, m % 2 = 1 ∧ n = m * 2 ^ t := by
+  induction n using Nat.strong_induction_on with
+  | _ n ih =>
+    by_cases h : n % 2 = 1
+    · exact ⟨n, 0, h, by simp⟩
+    · obtain ⟨m, t, hm, ht⟩ := ih (n / 2) (by omega) (by omega)
+      refine ⟨m, t + 1, hm, ?_⟩
+      rw [Nat.pow_succ, ← Nat.mul_assoc, ← ht]; omega
+
+theorem Num.twoAdic_eq (fuel : Nat) : ∀ (n m t : Nat), m % 2 = 1 → n = m * 2 ^ t → n ≤ fuel →
+    Num.twoAdic fuel n = t := by
+  induction fuel with
+  | zero =>
+    intro n m t hm hn hf
+    have : n = 0 := by omega
+    subst this
+    have h2 : 0 < 2 ^ t := Nat.two_pow_pos t
+    rcases Nat.mul_eq_zero.mp hn.symm with h | h <;> omega
+  | succ fuel ih =>
+    intro n m t hm hn hf
+    cases t with
+    | zero =>
+      simp only [Nat.pow_zero, Nat.mul_one] at hn
+      subst hn
+      simp [Num.twoAdic, hm]
+    | succ t =>
+      have hn' : n = 2 * (m * 2 ^ t) := by rw [hn, Nat.pow_succ]; ring
+      have hpos : 0 < m * 2 ^ t := Nat.mul_pos (by omega) (Nat.two_pow_pos t)
+      have h1 : n ≠ 0 ∧ n % 2 = 0 := by omega
+      have h2 : n / 2 = m * 2 ^ t := by omega
+      rw [Num.twoAdic, if_pos h1, ih (n / 2) m t hm h2 (by omega)]
+
+theorem Num.bitlen_le_iff (m b : Nat) : Num.bitlen m ≤ b ↔ m < 2 ^ b := by
+  unfold Num.bitlen
+  by_cases h : m = 0
+  · subst h; simp
+  · rw [if_neg h, Nat.succ_le_iff, Nat.log2_lt h]
+
+theorem Num.lt_two_pow_bitlen (m : Nat) : m < 2 ^ Num.bitlen m :=
+  (Num.bitlen_le_iff m _).mp (Nat.le_refl _)
+
+theorem Num.two_pow_bitlen_le (m : Nat) (h : m ≠ 0) : 2 ^ (Num.bitlen m - 1) ≤ m := by
+  unfold Num.bitlen
+  rw [if_neg h, Nat.add_sub_cancel]
+  exact Nat.log2_self_le h
+
+/-! ### `exactDouble?` -/
+
+/-- `exactDouble?` computed from the reduced fraction `n/d`, `n = m·2^t` with `m` odd -/
+theorem Num.exactDouble?_reduced (num den g n d m t : Nat) (hg : 0 < g) (hnum : num = n * g)
+    (hden : den = d * g) (hcop : Nat.Coprime n d) (hm : m % 2 = 1) (hn : n = m * 2 ^ t) :
+    Num.exactDouble? num den =
+      if d ≠ 2 ^ Num.twoAdic d d then none else
+      if m < 2 ^ 53 ∧ -1074 ≤ (t : Int) - (Num.twoAdic d d : Int)
+          ∧ (Num.bitlen m : Int) + ((t : Int) - (Num.twoAdic d d : Int)) ≤ 1024
+      then some (m, (t : Int) - (Num.twoAdic d d : Int)) else none := by
+  have hmpos : 0 < m := by omega
+  have hnpos : 0 < n := by rw [hn]; exact Nat.mul_pos hmpos (Nat.two_pow_pos t)
+  have hnum0 : num ≠ 0 := by rw [hnum]; exact Nat.ne_of_gt (Nat.mul_pos hnpos hg)
+  have hgcd : Nat.gcd num den = g := by
+    rw [hnum, hden, Nat.gcd_mul_right, hcop, Nat.one_mul]
+  have hn' : num / g = n := by rw [hnum]; exact Nat.mul_div_cancel _ hg
+  have hd' : den / g = d := by rw [hden]; exact Nat.mul_div_cancel _ hg
+  have ht : Num.twoAdic n n = t := Num.twoAdic_eq n n m t hm hn (Nat.le_refl _)
+  have hm' : n / 2 ^ t = m := by rw [hn]; exact Nat.mul_div_cancel _ (Nat.two_pow_pos t)
+  unfold Num.exactDouble?
+  simp only [if_neg hnum0, hgcd, hn', hd', ht, hm']
+
+/-- a reduced fraction equal to an odd number times a power of two -/
+theorem dyadic_coprime (n d m : Nat) (E : Int) (hd : 0 < d) (hcop : Nat.Coprime n d)
+    (hm : m % 2 = 1) (h : (n : Rat) / (d : Rat) = (m : Rat) * (2 : Rat) ^ E) :
+    ∃ j t : Nat, d = 2 ^ j ∧ n = m * 2 ^ t ∧ (t : Int) - (j : Int) = E := by
+  have hd' : (d : Rat) ≠ 0 := by exact_mod_cast (Nat.ne_of_gt hd)
+  rw [div_eq_iff hd'] at h
+  by_cases hE : 0 ≤ E
+  · obtain ⟨k, rfl⟩ := Int.eq_ofNat_of_zero_le hE
+    rw [zpow_natCast] at h
+    have h' : n = m * 2 ^ k * d := by exact_mod_cast h
+    have hd1 : d = 1 := Nat.Coprime.eq_one_of_dvd hcop.symm ⟨m * 2 ^ k, by rw [h']; ring⟩
+    refine ⟨0, k, by simpa using hd1, ?_, by simp⟩
+    rw [h', hd1]; ring
+  · obtain ⟨k, hk⟩ := Int.eq_ofNat_of_zero_le (show 0 ≤ -E by omega)
+    have hE' : E = -(k : Int) := by omega
+    rw [hE', zpow_neg, zpow_natCast] at h
+    have h2 : (n : Rat) * 2 ^ k = m * d := by
+      rw [h]; field_simp
+    have h' : n * 2 ^ k = m * d := by exact_mod_cast h2
+    have hdvd : d ∣ 2 ^ k := hcop.symm.dvd_of_dvd_mul_left ⟨m, by rw [h']; ring⟩
+    obtain ⟨j, hjk, hj⟩ := (Nat.dvd_prime_pow Nat.prime_two).mp hdvd
+    have hsplit : 2 ^ k = 2 ^ (k - j) * 2 ^ j := by rw [← Nat.pow_add]; congr 1; omega
+    rw [hj, hsplit, ← Nat.mul_assoc] at h'
+    have h3 : n * 2 ^ (k - j) = m := Nat.eq_of_mul_eq_mul_right (Nat.two_pow_pos j) h'
+    have hkj : k - j = 0 := by
+      by_contra hne
+      obtain ⟨r, hr⟩ : ∃ r, k - j = r + 1 := ⟨k - j - 1, by omega⟩
+      rw [hr, Nat.pow_succ] at h3
+      have : m % 2 = 0 := by rw [← h3, ← Nat.mul_assoc]; simp
+      omega
+    rw [hkj] at h3
+    refine ⟨j, 0, hj, by simpa using h3, ?_⟩
+    have : j = k := by omega
+    subst this; simp [hE']
+
+
+theorem reduce_fraction (num den : Nat) (hden : 0 < den) :
+    ∃ g n d, 0 < g ∧ 0 < d ∧ num = n * g ∧ den = d * g ∧ Nat.Coprime n d
+      ∧ (num : Rat) / (den : Rat) = (n : Rat) / (d : Rat) := by
+  have hg : 0 < Nat.gcd num den := Nat.gcd_pos_of_pos_right _ hden
+  have h1 : num = num / Nat.gcd num den * Nat.gcd num den :=
+    (Nat.div_mul_cancel (Nat.gcd_dvd_left _ _)).symm
+  have h2 : den = den / Nat.gcd num den * Nat.gcd num den :=
+    (Nat.div_mul_cancel (Nat.gcd_dvd_right _ _)).symm
+  have hd : 0 < den / Nat.gcd num den := by
+    rcases Nat.eq_zero_or_pos (den / Nat.gcd num den) with h | h
+    · rw [h] at h2; omega
+    · exact h
+  refine ⟨Nat.gcd num den, num / Nat.gcd num den, den / Nat.gcd num den, hg, hd, h1, h2,
+    Nat.coprime_div_gcd_div_gcd hg, ?_⟩
+  have hg' : ((Nat.gcd num den : Nat) : Rat) ≠ 0 := by exact_mod_cast (Nat.ne_of_gt hg)
+  have e1 : (num : Rat) = ((num / Nat.gcd num den : Nat) : Rat) * ((Nat.gcd num den : Nat) : Rat) := by
+    exact_mod_cast h1
+  have e2 : (den : Rat) = ((den / Nat.gcd num den : Nat) : Rat) * ((Nat.gcd num den : Nat) : Rat) := by
+    exact_mod_cast h2
+  conv_lhs => rw [e1, e2]
+  rw [mul_div_mul_right _ _ hg']
+
+theorem Num.exactDouble?_sound (num den m : Nat) (e : Int) (hden : 0 < den)
+    (h : Num.exactDouble? num den = some (m, e)) :
+    (num : Rat) / (den : Rat) = (m : Rat) * (2 : Rat) ^ e
+      ∧ m < 2 ^ 53 ∧ -1074 ≤ e ∧ (Num.bitlen m : Int) + e ≤ 1024 := by
+  by_cases hnum : num = 0
+  · subst hnum
+    simp only [Num.exactDouble?, if_true, Option.some.injEq, Prod.mk.injEq] at h
+    obtain ⟨rfl, rfl⟩ := h
+    simp [Num.bitlen]
+  · obtain ⟨g, n, d, hg, hd, hn, hdn, hcop, hq⟩ := reduce_fraction num den hden
+    have hn0 : n ≠ 0 := by rintro rfl; simp at hn; exact hnum hn
+    obtain ⟨m0, t, hm0, hnt⟩ := exists_odd_mul_two_pow n hn0
+    rw [Num.exactDouble?_reduced num den g n d m0 t hg hn hdn hcop hm0 hnt] at h
+    split at h
+    · cases h
+    · rename_i hdj
+      have hdj' : d = 2 ^ Num.twoAdic d d := by simpa using hdj
+      split at h
+      · rename_i hc
+        simp only [Option.some.injEq, Prod.mk.injEq] at h
+        obtain ⟨rfl, rfl⟩ := h
+        refine ⟨?_, hc.1, hc.2.1, hc.2.2⟩
+        rw [hq, hnt]
+        conv_lhs => rw [hdj']
+        rw [zpow_sub₀ (by norm_num), zpow_natCast, zpow_natCast]
+        push_cast
+        rw [mul_div_assoc]
+      · cases h
+
+theorem Num.exactDouble?_complete (num den m' : Nat) (e' : Int) (hden : 0 < den)
+    (hm' : m' < 2 ^ 53) (he1 : -1074 ≤ e') (he2 : e' ≤ 971)
+    (h : (num : Rat) / (den : Rat) = (m' : Rat) * (2 : Rat) ^ e') :
+    ∃ m e, Num.exactDouble? num den = some (m, e) := by
+  by_cases hnum : num = 0
+  · subst hnum
+    exact ⟨0, 0, by simp [Num.exactDouble?]⟩
+  · obtain ⟨g, n, d, hg, hd, hn, hdn, hcop, hq⟩ := reduce_fraction num den hden
+    have hn0 : n ≠ 0 := by rintro rfl; simp at hn; exact hnum hn
+    have hm0 : m' ≠ 0 := by
+      rintro rfl
+      have hden' : (den : Rat) ≠ 0 := by exact_mod_cast (Nat.ne_of_gt hden)
+      have hnum' : (num : Rat) ≠ 0 := by exact_mod_cast hnum
+      simp only [Nat.cast_zero, zero_mul] at h
+      exact (div_ne_zero hnum' hden') h
+    obtain ⟨m, s, hm, hms⟩ := exists_odd_mul_two_pow m' hm0
+    have hq' : (n : Rat) / (d : Rat) = (m : Rat) * (2 : Rat) ^ ((s : Int) + e') := by
+      rw [← hq, h, hms, zpow_add₀ (by norm_num), zpow_natCast]; push_cast; ring
+    obtain ⟨j, t, hdj, hnt, hE⟩ := dyadic_coprime n d m _ hd hcop hm hq'
+    have hj : Num.twoAdic d d = j :=
+      Num.twoAdic_eq d d 1 j (by norm_num) (by rw [hdj]; simp) (Nat.le_refl _)
+    have hmlt : m < 2 ^ 53 := by
+      have : m ≤ m' := by rw [hms]; exact Nat.le_mul_of_pos_right _ (Nat.two_pow_pos s)
+      omega
+    have hs : s ≤ 53 := by
+      by_contra hs
+      have h1 : 2 ^ 53 < 2 ^ s := Nat.pow_lt_pow_right (by norm_num) (by omega)
+      have h2 : 2 ^ s ≤ m' := by rw [hms]; exact Nat.le_mul_of_pos_left _ (by omega)
+      omega
+    have hbl : Num.bitlen m ≤ 53 - s := by
+      rw [Num.bitlen_le_iff]
+      have h53 : 2 ^ 53 = 2 ^ (53 - s) * 2 ^ s := by rw [← Nat.pow_add]; congr 1; omega
+      rw [hms, h53] at hm'
+      exact Nat.lt_of_mul_lt_mul_right hm'
+    rw [Num.exactDouble?_reduced num den g n d m t hg hn hdn hcop hm hnt, hj, if_neg (by simp [hdj]),
+      if_pos ⟨hmlt, by omega, by omega⟩]
+    exact ⟨_, _, rfl⟩
+
+
+/-! ### overflow of `roundInexact` -/
+
+theorem Num.bitlen_gap (num den k : Nat) (hden : 0 < den) (h : den * 2 ^ k ≤ num) :
+    Num.bitlen den - 1 + k < Num.bitlen num ∧ 1 ≤ Num.bitlen den := by
+  have hbn := Num.lt_two_pow_bitlen num
+  have hbd := Num.two_pow_bitlen_le den (Nat.ne_of_gt hden)
+  have hbd1 : 1 ≤ Num.bitlen den := by
+    by_contra hc
+    have : Num.bitlen den ≤ 0 := by omega
+    rw [Num.bitlen_le_iff] at this
+    omega
+  have h1 : 2 ^ (Num.bitlen den - 1) * 2 ^ k ≤ den * 2 ^ k := Nat.mul_le_mul_right _ hbd
+  have hlt : 2 ^ (Num.bitlen den - 1 + k) < 2 ^ Num.bitlen num := by
+    rw [Nat.pow_add]; exact Nat.lt_of_le_of_lt (Nat.le_trans h1 h) hbn
+  exact ⟨(Nat.pow_lt_pow_iff_right (by norm_num)).mp hlt, hbd1⟩
+
+theorem two_pow_mul_mul (den a b : Nat) : 2 ^ a * (den * 2 ^ b) = den * 2 ^ (a + b) := by
+  rw [Nat.pow_add]; ring
+
+set_option exponentiation.threshold 2048 in
+theorem Num.roundInexact_overflow (num den : Nat) (hden : 0 < den) (h : den * 2 ^ 1024 ≤ num) :
+    Num.roundInexact num den = none := by
+  obtain ⟨hbits, hbd1⟩ := Num.bitlen_gap num den 1024 hden h
+  unfold Num.roundInexact
+  extract_lets e0 quo e1 e2
+  have he0 : 971 ≤ e0 := by simp only [e0]; omega
+  have he1 : 972 ≤ e1 := by
+    by_cases h972 : 972 ≤ e0
+    · simp only [e1]; split <;> omega
+    · have h971 : e0 = 971 := by omega
+      have hq : (quo e0).1 ≥ 2 ^ 53 := by
+        simp only [quo, h971]
+        rw [if_neg (by norm_num)]
+        dsimp only
+        rw [show (971 : Int).toNat = 971 from rfl, ge_iff_le, Nat.le_div_iff_mul_le (by positivity)]
+        rw [two_pow_mul_mul den 53 971]; exact h
+      simp only [e1]; rw [if_pos hq]; omega
+  have he2 : 972 ≤ e2 := by simp only [e2]; omega
+  clear_value e2
+  generalize quo e2 = x
+  obtain ⟨q, r, d⟩ := x
+  dsimp only
+  split_ifs <;> first | rfl | (rename_i hc; dsimp only at hc; omega)
+
+
+/-! ### `Spec.isDouble` -/
+
+theorem Spec.isDouble_neg (q : Rat) (h : Spec.isDouble q) : Spec.isDouble (-q) := by
+  obtain ⟨m, e, hm, he1, he2, h | h⟩ := h
+  · exact ⟨m, e, hm, he1, he2, Or.inr (by rw [h])⟩
+  · exact ⟨m, e, hm, he1, he2, Or.inl (by rw [h, neg_neg])⟩
+
+theorem Spec.isDouble_abs (q : Rat) (h : Spec.isDouble q) : Spec.isDouble |q| := by
+  rcases abs_choice q with h' | h' <;> rw [h']
+  · exact h
+  · exact Spec.isDouble_neg q h
+
+theorem Spec.isDouble_nonneg (q : Rat) (hq : 0 ≤ q) (h : Spec.isDouble q) :
+    ∃ (m : Nat) (e : Int), m < 2 ^ 53 ∧ -1074 ≤ e ∧ e ≤ 971 ∧ q = (m : Rat) * (2 : Rat) ^ e := by
+  obtain ⟨m, e, hm, he1, he2, h | h⟩ := h
+  · exact ⟨m, e, hm, he1, he2, h⟩
+  · refine ⟨m, e, hm, he1, he2, ?_⟩
+    have hpos : (0 : Rat) ≤ (m : Rat) * (2 : Rat) ^ e := by positivity
+    have : (m : Rat) * (2 : Rat) ^ e = 0 := by linarith
+    rw [h, this, neg_zero]
+
+theorem Spec.isDouble_of_bounds (m : Nat) (e : Int) (hm : m < 2 ^ 53) (he : -1074 ≤ e)
+    (hb : (Num.bitlen m : Int) + e ≤ 1024) : Spec.isDouble ((m : Rat) * (2 : Rat) ^ e) := by
+  by_cases h971 : e ≤ 971
+  · exact ⟨m, e, hm, he, h971, Or.inl rfl⟩
+  · obtain ⟨k, hk⟩ := Int.eq_ofNat_of_zero_le (show 0 ≤ e - 971 by omega)
+    have hbl : Num.bitlen m ≤ 53 - k := by omega
+    have hk53 : k ≤ 53 := by omega
+    rw [Num.bitlen_le_iff] at hbl
+    refine ⟨m * 2 ^ k, 971, ?_, by norm_num, le_refl _, Or.inl ?_⟩
+    · have h53 : 2 ^ 53 = 2 ^ (53 - k) * 2 ^ k := by rw [← Nat.pow_add]; congr 1; omega
+      rw [h53]
+      exact Nat.mul_lt_mul_of_pos_right hbl (Nat.two_pow_pos k)
+    · have he' : e = (k : Int) + 971 := by omega
+      rw [he', zpow_add₀ (by norm_num), zpow_natCast, Nat.cast_mul, Nat.cast_pow, Nat.cast_ofNat,
+        mul_assoc]
+
+theorem Num.exactDouble?_iff (num den : Nat) (hden : 0 < den) :
+    (∃ m e, Num.exactDouble? num den = some (m, e)
+        ∧ (num : Rat) / (den : Rat) = (m : Rat) * (2 : Rat) ^ e)
+      ↔ Spec.isDouble ((num : Rat) / (den : Rat)) := by
+  constructor
+  · rintro ⟨m, e, h, heq⟩
+    obtain ⟨_, hm, he, hb⟩ := Num.exactDouble?_sound num den m e hden h
+    rw [heq]
+    exact Spec.isDouble_of_bounds m e hm he hb
+  · intro h
+    obtain ⟨m', e', hm', he1, he2, heq⟩ := Spec.isDouble_nonneg _ (by positivity) h
+    obtain ⟨m, e, hme⟩ := Num.exactDouble?_complete num den m' e' hden hm' he1 he2 heq
+    exact ⟨m, e, hme, (Num.exactDouble?_sound num den m e hden hme).1⟩
+
+theorem Num.roundToDouble_exact (num den : Nat) (hden : 0 < den)
+    (h : Spec.isDouble ((num : Rat) / (den : Rat))) :
+    ∃ m e, Num.roundToDouble num den = some (m, e)
+      ∧ (num : Rat) / (den : Rat) = (m : Rat) * (2 : Rat) ^ e := by
+  obtain ⟨m, e, hme, heq⟩ := (Num.exactDouble?_iff num den hden).mpr h
+  exact ⟨m, e, by simp [Num.roundToDouble, hme], heq⟩
+
+
+/-! ### `roundToDouble` -/
+
+theorem Num.exactDouble?_lt (num den m : Nat) (e : Int) (hden : 0 < den)
+    (h : Num.exactDouble? num den = some (m, e)) :
+    (num : Rat) / (den : Rat) < (2 : Rat) ^ (1024 : Nat) := by
+  obtain ⟨heq, _, _, hb⟩ := Num.exactDouble?_sound num den m e hden h
+  have h1 : (m : Rat) < (2 : Rat) ^ (Num.bitlen m : Int) := by
+    rw [zpow_natCast]; exact_mod_cast Num.lt_two_pow_bitlen m
+  have h2 : (m : Rat) * (2 : Rat) ^ e < (2 : Rat) ^ (Num.bitlen m : Int) * (2 : Rat) ^ e :=
+    mul_lt_mul_of_pos_right h1 (by positivity)
+  rw [← zpow_add₀ (by norm_num)] at h2
+  have h3 : (2 : Rat) ^ ((Num.bitlen m : Int) + e) ≤ (2 : Rat) ^ ((1024 : Nat) : Int) :=
+    zpow_le_zpow_right₀ (by norm_num) (by exact_mod_cast hb)
+  rw [zpow_natCast] at h3
+  rw [heq]
+  exact lt_of_lt_of_le h2 h3
+
+theorem Num.roundToDouble_overflow (num den : Nat) (hden : 0 < den)
+    (h : (2 : Rat) ^ (1024 : Nat) ≤ (num : Rat) / (den : Rat)) :
+    Num.roundToDouble num den = none := by
+  have hden' : (0 : Rat) < (den : Rat) := by exact_mod_cast hden
+  have hnat : den * 2 ^ 1024 ≤ num := by
+    rw [le_div_iff₀ hden'] at h
+    have : ((den * 2 ^ 1024 : Nat) : Rat) ≤ (num : Rat) := by
+      rw [Nat.cast_mul, Nat.cast_pow, Nat.cast_ofNat, mul_comm]; exact h
+    exact_mod_cast this
+  unfold Num.roundToDouble
+  cases hx : Num.exactDouble? num den with
+  | none => exact Num.roundInexact_overflow num den hden hnat
+  | some r =>
+    obtain ⟨m, e⟩ := r
+    exact absurd (Num.exactDouble?_lt num den m e hden hx) (not_lt.mpr h)
+
+/-! ### `Spec.val` against the scaled integers -/
+
+theorem Spec.val_eq_sm (a : Num) : Spec.val a = (a.sm : Rat) * (2 : Rat) ^ a.ex := by
+  cases a with
+  | int v => simp [Spec.val, Num.sm, Num.ex]
+  | flt neg m e => cases neg <;> simp [Spec.val, Num.sm, Num.ex]
+
+theorem Spec.val_eq_scaled (a : Num) (e0 : Int) (h : e0 ≤ a.ex) :
+    Spec.val a = (a.scaled e0 : Rat) * (2 : Rat) ^ e0 := by
+  rw [Spec.val_eq_sm, Num.scaled]
+  have h2 : a.ex = ((a.ex - e0).toNat : Int) + e0 := by omega
+  conv_lhs => rw [h2]
+  rw [zpow_add₀ (by norm_num), zpow_natCast]
+  push_cast
+  ring
+
+theorem two_zpow_pos (e : Int) : (0 : Rat) < (2 : Rat) ^ e := by positivity
+
+theorem Num.lt_iff (a b : Num) : Num.lt a b = true ↔ Spec.val a < Spec.val b := by
+  have ha := Spec.val_eq_scaled a (min a.ex b.ex) (min_le_left _ _)
+  have hb := Spec.val_eq_scaled b (min a.ex b.ex) (min_le_right _ _)
+  rw [ha, hb, Num.lt, decide_eq_true_eq, mul_lt_mul_iff_left₀ (two_zpow_pos _), Int.cast_lt]
+
+theorem Num.le_iff (a b : Num) : Num.le a b = true ↔ Spec.val a ≤ Spec.val b := by
+  have ha := Spec.val_eq_scaled a (min a.ex b.ex) (min_le_left _ _)
+  have hb := Spec.val_eq_scaled b (min a.ex b.ex) (min_le_right _ _)
+  rw [ha, hb, Num.le, decide_eq_true_eq, mul_le_mul_iff_left₀ (two_zpow_pos _), Int.cast_le]
+
+theorem Num.eq_iff (a b : Num) : Num.eq a b = true ↔ Spec.val a = Spec.val b := by
+  have ha := Spec.val_eq_scaled a (min a.ex b.ex) (min_le_left _ _)
+  have hb := Spec.val_eq_scaled b (min a.ex b.ex) (min_le_right _ _)
+  rw [ha, hb, Num.eq, decide_eq_true_eq, mul_left_inj' (ne_of_gt (two_zpow_pos _)), Int.cast_inj]
+
+theorem multipleOfFailed_int (i d : Int) (hd : d ≠ 0) :
+    multipleOfFailed (.int i) (.int d) = .ok (decide (¬ d ∣ i)) := by
+  simp [multipleOfFailed, hd, Int.dvd_iff_fmod_eq_zero]
+
+theorem multipleOfFailed_ok (i d : Num) (hd : d.isZero = false) :
+    ∃ failed, multipleOfFailed i d = .ok failed := by
+  cases d with
+  | int dv =>
+    have hdv : dv ≠ 0 := by
+      simp only [Num.isZero, Num.sm] at hd; exact of_decide_eq_false hd
+    cases i with
+    | int iv => simp only [multipleOfFailed, hdv, if_false]; exact ⟨_, rfl⟩
+    | flt n m e =>
+      simp only [multipleOfFailed, hdv, if_false]
+      cases Num.intToDouble dv <;> exact ⟨_, rfl⟩
+  | flt n m e =>
+    simp only [multipleOfFailed, hd]
+    cases i.toDouble with
+    | none => exact ⟨_, rfl⟩
+    | some fi =>
+      dsimp only
+      cases Num.fdiv fi (.flt n m e) <;> exact ⟨_, rfl⟩
+
+theorem Num.isZero_iff (a : Num) : a.isZero = true ↔ Spec.val a = 0 := by
+  rw [Spec.val_eq_sm, Num.isZero, decide_eq_true_eq]
+  have := two_zpow_pos a.ex
+  constructor
+  · intro h; simp [h]
+  · intro h
+    rcases mul_eq_zero.mp h with h | h
+    · exact_mod_cast h
+    · exact absurd h (ne_of_gt this)
+
+theorem Num.isZero_false_iff (a : Num) : a.isZero = false ↔ Spec.val a ≠ 0 := by
+  rw [Ne, ← Num.isZero_iff]; cases a.isZero <;> simp
+
+/-- a quotient of integers is an integer iff the denominator divides the numerator -/
+theorem isInt_div_iff (p q : Int) (hq : q ≠ 0) :
+    Spec.isInt ((p : Rat) / (q : Rat)) ↔ q ∣ p := by
+  have hq' : (q : Rat) ≠ 0 := by exact_mod_cast hq
+  constructor
+  · rintro ⟨n, hn⟩
+    refine ⟨n, ?_⟩
+    rw [div_eq_iff hq'] at hn
+    have : (p : Rat) = ((q * n : Int) : Rat) := by rw [hn]; push_cast; ring
+    exact_mod_cast this
+  · rintro ⟨n, rfl⟩
+    exact ⟨n, by push_cast; field_simp⟩
+
+theorem Num.exactMultiple_iff (a b : Num) (hb : b.isZero = false) :
+    Num.exactMultiple a b = true ↔ Spec.isInt (Spec.val a / Spec.val b) := by
+  have ha' := Spec.val_eq_scaled a (min a.ex b.ex) (min_le_left _ _)
+  have hb' := Spec.val_eq_scaled b (min a.ex b.ex) (min_le_right _ _)
+  have hbz := (Num.isZero_false_iff b).mp hb
+  have hpos := two_zpow_pos (min a.ex b.ex)
+  have hsb : b.scaled (min a.ex b.ex) ≠ 0 := by
+    intro h; apply hbz; rw [hb', h]; simp
+  have hq : Spec.val a / Spec.val b
+      = (a.scaled (min a.ex b.ex) : Rat) / (b.scaled (min a.ex b.ex) : Rat) := by
+    rw [ha', hb']
+    rw [mul_div_mul_right _ _ (ne_of_gt hpos)]
+  rw [hq, isInt_div_iff _ _ hsb, Num.exactMultiple]
+  simp only [decide_eq_true_eq]
+  exact (Int.dvd_iff_emod_eq_zero ..).symm
+
+
+/-! ### conversions and float division on the exact sub-domain -/
+
+theorem Num.intToDouble_exact (v : Int) (h : Spec.isDouble (v : Rat)) :
+    ∃ m e, Num.intToDouble v = some (.flt (decide (v < 0)) m e)
+      ∧ Spec.val (.flt (decide (v < 0)) m e) = (v : Rat) := by
+  have habs : ((v.natAbs : Nat) : Rat) / ((1 : Nat) : Rat) = |(v : Rat)| := by
+    rw [Nat.cast_one, div_one, Nat.cast_natAbs, Int.cast_abs]
+  have h' : Spec.isDouble (((v.natAbs : Nat) : Rat) / ((1 : Nat) : Rat)) := by
+    rw [habs]; exact Spec.isDouble_abs _ h
+  obtain ⟨m, e, hr, heq⟩ := Num.roundToDouble_exact v.natAbs 1 Nat.one_pos h'
+  refine ⟨m, e, by simp [Num.intToDouble, hr], ?_⟩
+  rw [habs] at heq
+  unfold Spec.val
+  by_cases hv : v < 0
+  · have hv' : (v : Rat) < 0 := by exact_mod_cast hv
+    rw [abs_of_neg hv'] at heq
+    simp only [hv, decide_true, if_true]
+    rw [mul_assoc, ← heq]; ring
+  · have hv' : (0 : Rat) ≤ (v : Rat) := by exact_mod_cast (not_lt.mp hv)
+    rw [abs_of_nonneg hv'] at heq
+    simp only [hv, decide_false, Bool.false_eq_true, if_false]
+    rw [mul_assoc, ← heq]; ring
+
+theorem Num.toDouble_exact (i : Num) (h : Spec.isDouble (Spec.val i)) :
+    ∃ na ma ea, i.toDouble = some (.flt na ma ea) ∧ Spec.val (.flt na ma ea) = Spec.val i := by
+  cases i with
+  | int v =>
+    obtain ⟨m, e, h1, h2⟩ := Num.intToDouble_exact v h
+    exact ⟨_, m, e, h1, h2⟩
+  | flt n m e => exact ⟨n, m, e, rfl, rfl⟩
+
+/-- numerator and denominator handed to `roundToDouble` by `fdiv` -/
+def Num.fnum (ma : Nat) (ea eb : Int) : Nat := if 0 ≤ ea - eb then ma * 2 ^ (ea - eb).toNat else ma
+def Num.fden (mb : Nat) (ea eb : Int) : Nat := if 0 ≤ ea - eb then mb else mb * 2 ^ (-(ea - eb)).toNat
+
+theorem Num.fdiv_eq (na nb : Bool) (ma mb : Nat) (ea eb : Int) :
+    Num.fdiv (.flt na ma ea) (.flt nb mb eb) =
+      match Num.roundToDouble (Num.fnum ma ea eb) (Num.fden mb ea eb) with
+      | none => .inf
+      | some (m, e) => .fin (.flt (na != nb) m e) := rfl
+
+theorem Num.fden_pos (mb : Nat) (ea eb : Int) (hmb : mb ≠ 0) : 0 < Num.fden mb ea eb := by
+  unfold Num.fden
+  split
+  · omega
+  · exact Nat.mul_pos (by omega) (Nat.two_pow_pos _)
+
+theorem Num.fnum_div_fden (ma mb : Nat) (ea eb : Int) (hmb : mb ≠ 0) :
+    (Num.fnum ma ea eb : Rat) / (Num.fden mb ea eb : Rat)
+      = ((ma : Rat) * (2 : Rat) ^ ea) / ((mb : Rat) * (2 : Rat) ^ eb) := by
+  have hmb' : (mb : Rat) ≠ 0 := by exact_mod_cast hmb
+  have h2 : ∀ x : Int, (2 : Rat) ^ x ≠ 0 := fun x => ne_of_gt (two_zpow_pos x)
+  unfold Num.fnum Num.fden
+  by_cases hd : 0 ≤ ea - eb
+  · rw [if_pos hd, if_pos hd]
+    have hea : ea = ((ea - eb).toNat : Int) + eb := by omega
+    conv_rhs => rw [hea, zpow_add₀ (by norm_num), zpow_natCast]
+    push_cast
+    have := h2 eb
+    field_simp
+  · rw [if_neg hd, if_neg hd]
+    have heb : eb = ((-(ea - eb)).toNat : Int) + ea := by omega
+    conv_rhs => rw [heb, zpow_add₀ (by norm_num), zpow_natCast]
+    push_cast
+    have := h2 ea
+    field_simp
+
+theorem Spec.val_flt_div (na nb : Bool) (ma mb : Nat) (ea eb : Int) :
+    Spec.val (.flt na ma ea) / Spec.val (.flt nb mb eb)
+      = (if (na != nb) = true then -1 else 1)
+          * (((ma : Rat) * (2 : Rat) ^ ea) / ((mb : Rat) * (2 : Rat) ^ eb)) := by
+  cases na <;> cases nb <;> simp [Spec.val] <;> ring
+
+theorem Spec.abs_val_flt_div (na nb : Bool) (ma mb : Nat) (ea eb : Int) :
+    |Spec.val (.flt na ma ea) / Spec.val (.flt nb mb eb)|
+      = ((ma : Rat) * (2 : Rat) ^ ea) / ((mb : Rat) * (2 : Rat) ^ eb) := by
+  rw [Spec.val_flt_div, abs_mul]
+  have h1 : |(if (na != nb) = true then (-1 : Rat) else 1)| = 1 := by
+    split <;> simp
+  have h2 : (0 : Rat) ≤ ((ma : Rat) * (2 : Rat) ^ ea) / ((mb : Rat) * (2 : Rat) ^ eb) := by positivity
+  rw [h1, one_mul, abs_of_nonneg h2]
+
+theorem Num.isIntegral_iff (q : Num) : q.isIntegral = true ↔ Spec.isInt (Spec.val q) := by
+  cases q with
+  | int v => simp only [Num.isIntegral, true_iff]; exact ⟨v, rfl⟩
+  | flt n m e =>
+    unfold Num.isIntegral
+    dsimp only
+    by_cases he : 0 ≤ e
+    · rw [if_pos he]
+      simp only [true_iff]
+      obtain ⟨k, rfl⟩ := Int.eq_ofNat_of_zero_le he
+      refine ⟨(if n then -1 else 1) * (m : Int) * 2 ^ k, ?_⟩
+      simp only [Spec.val]
+      rw [zpow_natCast]
+      cases n <;> simp
+    · rw [if_neg he, decide_eq_true_eq]
+      obtain ⟨k, hk⟩ := Int.eq_ofNat_of_zero_le (show 0 ≤ -e by omega)
+      have hk' : (-e).toNat = k := by omega
+      have he' : e = -(k : Int) := by omega
+      rw [hk']
+      have hv : Spec.val (.flt n m e)
+          = (((if n then -1 else 1) * (m : Int) : Int) : Rat) / (((2 : Int) ^ k : Int) : Rat) := by
+        simp only [Spec.val]
+        rw [he', zpow_neg, zpow_natCast]
+        cases n <;> simp [div_eq_mul_inv]
+      rw [hv, isInt_div_iff _ _ (by positivity)]
+      have hdvd : ((2 : Int) ^ k ∣ (if n then -1 else 1) * (m : Int)) ↔ (2 : Int) ^ k ∣ (m : Int) := by
+        cases n <;> simp
+      rw [hdvd, ← Nat.dvd_iff_mod_eq_zero]
+      constructor
+      · intro h; exact_mod_cast h
+      · intro h; exact_mod_cast h
+
+
+/-! ### the number gate and the keywords -/
+
+theorem isTypeS_number (cfg : Cfg) (hg : lookupS (skey "number") cfg.types = some .isNumber)
+    (inst : Json) : isTypeS cfg inst "number" = .ok inst.isNumJ := by
+  unfold isTypeS isType
+  unfold skey at hg
+  simp only [hg, TyFn.apply]
+
+theorem kwBound_num (cfg : Cfg) (hg : lookupS (skey "number") cfg.types = some .isNumber)
+    (t : String) (f : Num → Num → Bool) (b i : Num) :
+    kwBound cfg t f (.num b) (.num i)
+      = if f i b then emit [Err.fresh t [.num i, .num b]] else nothing := by
+  unfold kwBound gate
+  rw [isTypeS_number cfg hg]
+  simp [withRes, Json.isNumJ, asNum]
+
+theorem kwBound_nonnum (cfg : Cfg) (hg : lookupS (skey "number") cfg.types = some .isNumber)
+    (t : String) (f : Num → Num → Bool) (bound inst : Json) (h : inst.isNumJ = false) :
+    kwBound cfg t f bound inst = nothing := by
+  unfold kwBound gate
+  rw [isTypeS_number cfg hg, h]
+  simp [withRes]
+
+theorem kwBound_errs_nil (cfg : Cfg) (hg : lookupS (skey "number") cfg.types = some .isNumber)
+    (t : String) (f : Num → Num → Bool) (b i : Num) (st : RState) :
+    (kwBound cfg t f (.num b) (.num i) none st).errs = [] ↔ f i b = false := by
+  rw [kwBound_num cfg hg]
+  cases f i b <;> simp [emit, nothing]
+
+theorem kwBounds_d67 (cfg : Cfg) (hg : lookupS (skey "number") cfg.types = some .isNumber)
+    (i b : Num) (st : RState) :
+    ((kwMinimum cfg (.num b) (.num i) none st).errs = [] ↔ Spec.val b ≤ Spec.val i)
+    ∧ ((kwMaximum cfg (.num b) (.num i) none st).errs = [] ↔ Spec.val i ≤ Spec.val b)
+    ∧ ((kwExclusiveMinimum cfg (.num b) (.num i) none st).errs = [] ↔ Spec.val b < Spec.val i)
+    ∧ ((kwExclusiveMaximum cfg (.num b) (.num i) none st).errs = [] ↔ Spec.val i < Spec.val b) := by
+  unfold kwMinimum kwMaximum kwExclusiveMinimum kwExclusiveMaximum
+  simp only [kwBound_errs_nil cfg hg, Bool.eq_false_iff, ne_eq, Num.lt_iff, Num.le_iff, not_lt,
+    not_le, and_self]
+
+theorem kwBounds_d34 (cfg : Cfg) (hg : lookupS (skey "number") cfg.types = some .isNumber)
+    (i b : Num) (kvs : List (Str × Json)) (st : RState) :
+    ((kwMinimumDraft3Draft4 cfg (.num b) (.num i) (.obj kvs) none st).errs = [] ↔
+        if truthy ((Json.lookup (skey "exclusiveMinimum") kvs).getD (.bool false))
+        then Spec.val b < Spec.val i else Spec.val b ≤ Spec.val i)
+    ∧ ((kwMaximumDraft3Draft4 cfg (.num b) (.num i) (.obj kvs) none st).errs = [] ↔
+        if truthy ((Json.lookup (skey "exclusiveMaximum") kvs).getD (.bool false))
+        then Spec.val i < Spec.val b else Spec.val i ≤ Spec.val b) := by
+  have hget : ∀ k, (Json.obj kvs).get? k = Json.lookup k kvs := fun _ => rfl
+  unfold kwMinimumDraft3Draft4 kwMaximumDraft3Draft4
+  rw [hget, hget]
+  constructor
+  · cases truthy ((Json.lookup (skey "exclusiveMinimum") kvs).getD (.bool false)) <;>
+      simp only [kwBound_errs_nil cfg hg, Bool.eq_false_iff, ne_eq, Num.lt_iff, Num.le_iff, not_lt,
+        not_le, if_true, if_false, Bool.false_eq_true]
+  · cases truthy ((Json.lookup (skey "exclusiveMaximum") kvs).getD (.bool false)) <;>
+      simp only [kwBound_errs_nil cfg hg, Bool.eq_false_iff, ne_eq, Num.lt_iff, Num.le_iff, not_lt,
+        not_le, if_true, if_false, Bool.false_eq_true]
+theorem nothing_out (b : Option Nat) (st : RState) :
+    (nothing b st).errs = [] ∧ (nothing b st).stop = .done ∨ (nothing b st).stop = .budget := by
+  unfold nothing emit
+  cases b with
+  | none => simp
+  | some k =>
+    by_cases hk : 0 < k
+    · simp [hk]
+    · simp [hk]
+
+
+theorem multipleOfFailed_float_divisor (i d : Num) (hdf : d.isFloat = true) (hd : d.isZero = false)
+    (hi : Spec.isDouble (Spec.val i))
+    (hq : Spec.isDouble (Spec.val i / Spec.val d) ∨ (2 : Rat) ^ (1024 : Nat) ≤ Spec.val i / Spec.val d
+        ∨ Spec.val i / Spec.val d ≤ -(2 : Rat) ^ (1024 : Nat)) :
+    multipleOfFailed i d = .ok (decide (¬ Num.exactMultiple i d = true)) := by
+  cases d with
+  | int _ => simp [Num.isFloat] at hdf
+  | flt nb mb eb =>
+    have hmb : mb ≠ 0 := by
+      rintro rfl
+      simp [Num.isZero, Num.sm] at hd
+    obtain ⟨na, ma, ea, hfi, hval⟩ := Num.toDouble_exact i hi
+    have hpos := Num.fden_pos mb ea eb hmb
+    have hfrac := Num.fnum_div_fden ma mb ea eb hmb
+    have habs : |Spec.val i / Spec.val (.flt nb mb eb)|
+        = (Num.fnum ma ea eb : Rat) / (Num.fden mb ea eb : Rat) := by
+      rw [← hval, Spec.abs_val_flt_div, hfrac]
+    simp only [multipleOfFailed, hd, hfi, Bool.false_eq_true, if_false]
+    rw [Num.fdiv_eq]
+    rcases hq with hq | hq
+    · have hq' := Spec.isDouble_abs _ hq
+      rw [habs] at hq'
+      obtain ⟨m, e, hr, heq⟩ := Num.roundToDouble_exact _ _ hpos hq'
+      rw [hr]
+      dsimp only
+      have hvq : Spec.val (.flt (na != nb) m e) = Spec.val i / Spec.val (.flt nb mb eb) := by
+        rw [← hval, Spec.val_flt_div, ← hfrac, heq]
+        simp only [Spec.val]; ring
+      have hb : (Num.flt (na != nb) m e).isIntegral = Num.exactMultiple i (.flt nb mb eb) := by
+        rw [Bool.eq_iff_iff, Num.isIntegral_iff, Num.exactMultiple_iff _ _ hd, hvq]
+      rw [hb]
+      cases Num.exactMultiple i (.flt nb mb eb) <;> rfl
+    · have hq' : (2 : Rat) ^ (1024 : Nat) ≤ (Num.fnum ma ea eb : Rat) / (Num.fden mb ea eb : Rat) := by
+        rw [← habs]
+        rcases hq with hq | hq
+        · exact le_trans hq (le_abs_self _)
+        · exact le_trans (le_neg_of_le_neg hq) (neg_le_abs _)
+      rw [Num.roundToDouble_overflow _ _ hpos hq']
+      dsimp only
+      cases Num.exactMultiple i (.flt nb mb eb) <;> rfl
+
+theorem multipleOfFailed_int_divisor (x : Num) (m : Int) (hx : x.isFloat = true) (hm : m ≠ 0)
+    (hconv : Spec.isDouble (m : Rat)) :
+    multipleOfFailed x (.int m) = .ok (decide (¬ Num.exactMultiple x (.int m) = true)) := by
+  cases x with
+  | int _ => simp [Num.isFloat] at hx
+  | flt n mx e =>
+    obtain ⟨mm, ee, hfd, hval⟩ := Num.intToDouble_exact m hconv
+    simp only [multipleOfFailed, hm, hfd, if_false]
+    have hz1 : (Num.int m).isZero = false := by simp [Num.isZero, Num.sm, hm]
+    have hz2 : (Num.flt (decide (m < 0)) mm ee).isZero = false := by
+      rw [Num.isZero_false_iff, hval]; exact_mod_cast hm
+    have hb : Num.exactMultiple (.flt n mx e) (.flt (decide (m < 0)) mm ee)
+        = Num.exactMultiple (.flt n mx e) (.int m) := by
+      rw [Bool.eq_iff_iff, Num.exactMultiple_iff _ _ hz1, Num.exactMultiple_iff _ _ hz2, hval]
+      rfl
+    rw [hb]
+    cases Num.exactMultiple (.flt n mx e) (.int m) <;> rfl
+
+theorem kwMultipleOf_no_raise (cfg : Cfg) (hg : lookupS (skey "number") cfg.types = some .isNumber)
+    (i d : Num) (hd : d.isZero = false) (b : Option Nat) (st : RState) :
+    ∀ e, (kwMultipleOf cfg (.num d) (.num i) b st).stop ≠ .raised e := by
+  intro e
+  obtain ⟨failed, hf⟩ := multipleOfFailed_ok i d hd
+  unfold kwMultipleOf gate
+  rw [isTypeS_number cfg hg]
+  simp only [withRes, Json.isNumJ, asNum, hf]
+  cases failed <;> cases b <;> simp [emit, nothing] <;> split <;> simp
+
 end JS
